@@ -519,6 +519,15 @@ func Run(clients []func(), schedule []uint16, maxSteps int) *RunResult {
 		pick := runnable[0]
 		if step < len(schedule) {
 			pick = runnable[int(schedule[step])%len(runnable)]
+		} else if step%8 == 7 && len(runnable) > 1 && status[pick] != stPolling {
+			// beyond the end of the vector the lowest-numbered task runs - but not for ever: every eighth step goes to
+			// the runnable task that has waited longest, as a preemptive runtime would get round to it (a background
+			// goroutine must not starve just because the vector is short)
+			for _, i := range runnable {
+				if lastRun[i] < lastRun[pick] {
+					pick = i
+				}
+			}
 		} else if status[pick] == stPolling {
 			// only waiting tasks are left: the one that has waited longest goes first, so that two of them cannot
 			// starve each other
